@@ -117,7 +117,7 @@ NOTES.update({
  "C03-6": ("caught", ""),
  "C05-6": ("caught", ""),
  "C06-6": ("caught", ""),
- "C07-6": ("caught by thorough only", ""),
+ "C07-6": ("caught by thorough only", "every forced pivot order again on exactly scaled copies (2^-30, 2^-40, 2^30); scaled_small class down to 1e-12"),
  "C08-6": ("caught", ""),
  "C09-6": ("caught", ""),
  "C10-6": ("caught", ""),
